@@ -99,6 +99,7 @@ type Config struct {
 	ValScript    map[uint64][]int64 // height -> new power vector reported by the application after that height (0 = removed)
 	Restarts     bool               // offer Restart(i) deviations (C04); nodes then run on a real WAL
 	NoByzMenu    bool
+	SoloTurn     int // >0: exactly one correct validator, the proposer of that round (solo drivers)
 	// Full, when set, runs every validator on the REAL node stack (blockchain, staking contracts, tx
 	// pool ...) booted from the given genesis instead of the simulated application.
 	Full        *FullSpec
@@ -262,6 +263,21 @@ func NewWorld(cfg Config, x *explore.Ctx) *World {
 	if cfg.ByzProposer {
 		first := consensus.VerifMakeGenesisState(gen).Validators.GetProposer().Address
 		cfg.Byz = []int{w.valIndexOfAddr(first)}
+		w.Cfg = cfg
+	}
+	if cfg.SoloTurn > 0 {
+		// the single correct validator is the one whose proposer turn is round SoloTurn of height 1
+		vs := consensus.VerifMakeGenesisState(gen).Validators
+		if cfg.SoloTurn > 1 {
+			vs = vs.CopyIncrementProposerPriority(int64(cfg.SoloTurn - 1))
+		}
+		x := w.valIndexOfAddr(vs.GetProposer().Address)
+		cfg.Byz = nil
+		for i := range cfg.Powers {
+			if i != x {
+				cfg.Byz = append(cfg.Byz, i)
+			}
+		}
 		w.Cfg = cfg
 	}
 	for _, b := range cfg.Byz {
